@@ -605,11 +605,11 @@ class Collection:
             "default": self.default,
             "tasks": [
                 {
-                    "name": self.transform(x.name),
+                    "name": name,
                     "help": helpline(x),
                     "aliases": [self.transform(y) for y in x.aliases],
                 }
-                for x in sorted(self.tasks.values(), key=lambda x: x.name)
+                for name, x in sorted(self.tasks.items())
             ],
             "collections": [
                 x.serialized()
